@@ -24,6 +24,12 @@ class Layout(object):
             self.DATA_RO = 0x21000      # read-only page right after it
             self.HOLE = 0x22000         # unmapped
             self.DATA_RW2 = 0x23000     # rw page after the hole
+        # small regions right after rw2: a 3-byte read-only page, 0x40 writable bytes, a 2-byte hole,
+        # 0x40 writable bytes: one wide access can touch three regions at once
+        self.TINY_RO = self.DATA_RW2 + 0x1000
+        self.RW3 = self.TINY_RO + 3
+        self.TINY_HOLE = self.RW3 + 0x40
+        self.RW4 = self.TINY_HOLE + 2
 
 SUPPORTED_OPS = set("""+ * ^ & | - >> << a>> >>> <<< / % udiv umod sdiv smod ** parity cntleadzeros
 cnttrailzeros == <u <=u <s <=s FLAG_EQ FLAG_EQ_AND FLAG_EQ_CMP FLAG_SIGN_SUB FLAG_SIGN_ADD FLAG_ADD_CF
@@ -314,6 +320,7 @@ class Prog(object):
         self.pages = []           # (addr, perm, bytes, name)
         self.loop = None          # (head, branch_pc)
         self.delay_slots = []     # addresses of instructions sitting in a branch delay slot
+        self.holes = []           # (address, size) of the unmapped ranges pointers are aimed at
 
     def describe(self):
         return dict(machine=self.spec.mname, code=self.code.hex(),
@@ -336,6 +343,8 @@ def interesting_values(rng, bits, L):
 def make_prog(spec, rng, pool, n_instr, with_loop=False, fault_bias=0.3, mode=None, soft_int=False):
     """mode: None (registers mostly inside the rw page, fault_bias of them on interesting values),
     "straddle" (every pointer a few bytes before a page boundary: rw->ro, ro->hole, hole->rw2),
+    "tiny" (every pointer a few bytes before a 3-byte read-only page or a 2-byte hole that sit between
+    writable regions: a wide access covers writable / not writable / writable bytes),
     "split" (every register independently on a valid rw address, a read-only address or a hole:
     instructions that read one place and write another get one good and one bad operand)"""
     p = Prog(spec)
@@ -393,6 +402,9 @@ def make_prog(spec, rng, pool, n_instr, with_loop=False, fault_bias=0.3, mode=No
         ends = [DATA_RW + PAGE, DATA_RO + PAGE, DATA_RW2]
         for r in spec.gprs:
             p.regs[r] = (rng.choice(ends) - rng.choice([1, 1, 2, 3, 3, 5, 7])) & m
+    elif mode == "tiny":
+        for r in spec.gprs:
+            p.regs[r] = (rng.choice([L.TINY_RO, L.TINY_RO, L.TINY_HOLE]) - rng.choice([0, 1, 1, 2, 3, 3, 5, 7])) & m
     elif mode == "split":
         for r in spec.gprs:
             k = rng.random()
@@ -409,6 +421,8 @@ def make_prog(spec, rng, pool, n_instr, with_loop=False, fault_bias=0.3, mode=No
     p.regs[spec.sp_name] = DATA_RW + 0x800 + rng.choice([0, 4, 8, 0x7f8 - 0x800 + 0x800])
     if mode == "straddle" and rng.random() < 0.5:
         p.regs[spec.sp_name] = (DATA_RW + PAGE + rng.choice([1, 2, 3, 6])) & m   # pushes straddle down into rw
+    if mode == "tiny" and rng.random() < 0.5:
+        p.regs[spec.sp_name] = (rng.choice([L.RW3, L.RW4]) + rng.choice([1, 2, 3, 6])) & m
     if mode == "split" and rng.random() < 0.3:
         p.regs[spec.sp_name] = (L.HOLE + 0x800) & m
     if p.loop is not None:
@@ -417,7 +431,11 @@ def make_prog(spec, rng, pool, n_instr, with_loop=False, fault_bias=0.3, mode=No
     p.pages = [(CODE, PAGE_READ | PAGE_WRITE, code + b"\x00" * (PAGE - len(code)), "code"),
                (DATA_RW, PAGE_READ | PAGE_WRITE, fill, "rw"),
                (DATA_RO, PAGE_READ, fill[::-1], "ro"),
-               (DATA_RW2, PAGE_READ | PAGE_WRITE, fill[7:] + fill[:7], "rw2")]
+               (DATA_RW2, PAGE_READ | PAGE_WRITE, fill[7:] + fill[:7], "rw2"),
+               (L.TINY_RO, PAGE_READ, fill[11:14], "tiny_ro"),
+               (L.RW3, PAGE_READ | PAGE_WRITE, fill[20:20 + 0x40], "rw3"),
+               (L.RW4, PAGE_READ | PAGE_WRITE, fill[90:90 + 0x40], "rw4")]
+    p.holes = [(L.HOLE, PAGE), (L.TINY_HOLE, 2)]
     return p
 
 
@@ -472,8 +490,10 @@ def snapshot(jitter, spec, out):
 
 
 def run(spec, backend, prog, options=None, max_steps=400, breakpoints=(), trace=False, on_fault=None,
-        jitter=None, start=None, int_handler=False):
+        jitter=None, start=None, int_handler=False, bp_writes=None):
     """run @prog to its end marker.  -> Outcome
+    @bp_writes: {breakpoint address: (register name, value)}: the callback of that breakpoint changes
+    the register from outside the engine (what an emulated library function does)
     @int_handler: software interrupts / system calls are handled by a host callback that logs
     (pc, counter register), changes a register, clears the exception and lets the run go on"""
     out = Outcome()
@@ -520,6 +540,9 @@ def run(spec, backend, prog, options=None, max_steps=400, breakpoints=(), trace=
     for addr in breakpoints:
         def hit(j, addr=addr):
             out.bp_hits.append(addr)
+            if bp_writes and addr in bp_writes:
+                reg, val = bp_writes[addr]
+                setattr(j.cpu, reg, val)
             return True
         jitter.add_breakpoint(addr, hit)
     try:
@@ -580,3 +603,28 @@ def count_stores(spec, prog, idx):
         return -1
 
 
+
+
+def dest_regs(spec, prog, idx):
+    """names of the CPU registers (flags included) assigned by the IR of instruction @idx of @prog,
+    restricted to those the CPU object exposes; the program counter and IRDst are left out"""
+    from miasm.core.bin_stream import bin_stream_str
+    from miasm.core.locationdb import LocationDB
+    off, ln, txt, nm = prog.instrs[idx]
+    try:
+        loc_db = LocationDB()
+        lifter = spec.machine.lifter(loc_db)
+        raw = prog.code[off - spec.L.CODE: off - spec.L.CODE + ln]
+        instr = spec.mn.dis(bin_stream_str(raw, base_address=off), spec.attrib, off)
+        ircfg = lifter.new_ircfg()
+        lifter.add_instr_to_ircfg(instr, ircfg)
+        out = {}
+        for blk in ircfg.blocks.values():
+            for ab in blk:
+                for dst in ab:
+                    if dst.is_id() and dst != lifter.IRDst and dst.name not in PC_REGS \
+                            and dst.name != spec.pc_name and dst.name not in IGNORED_REGS:
+                        out[dst.name] = dst.size
+        return out
+    except Exception:
+        return {}
